@@ -95,7 +95,7 @@ class Cls:
 
 
 class Module:
-    def __init__(self, root, path):
+    def __init__(self, root, path, defer=False):
         self.path = path
         self.rel = os.path.relpath(path, root)
         self.name = self.rel[:-3].replace('/', '.')
@@ -108,6 +108,14 @@ class Module:
             from .canon import shape
             self.tree = shape(self.tree, self.name)
         self.lines = self.source.splitlines()
+        if not defer:
+            self.finish()
+
+    def finish(self):
+        """second phase (after Repo has computed which of the package's functions are pure): temporaries, index, parent links"""
+        if os.environ.get('GSCAN_NO_CANON') != '1':
+            from .canon import shape_temps
+            self.tree = shape_temps(self.tree)
         self.functions, self.classes, self.constants = {}, {}, {}
         self.imports = {}      # local name -> ('mod', modname) | ('obj', modname, objname)
         for n in self.tree.body:
@@ -149,8 +157,14 @@ class Repo:
         if not files:
             raise AnchorMissing(f'no python sources under {root}/gnpy')
         for f in files:
-            m = Module(root, f)
+            m = Module(root, f, defer=True)
             self.modules[m.name] = m
+        if os.environ.get('GSCAN_NO_CANON') != '1':
+            from . import canon
+            canon.REPO_PURE_FUNCS, canon.REPO_PURE_METHODS = canon.purity([m.tree for m in self.modules.values()])
+            self.pure_names = (sorted(canon.REPO_PURE_FUNCS), sorted(canon.REPO_PURE_METHODS))
+        for m in self.modules.values():
+            m.finish()
         self.class_index = {}
         for m in self.modules.values():
             for c in m.classes.values():
